@@ -24,6 +24,20 @@ class Module:
                 self.functions[n.name] = n
         self._consts = None
 
+    def imported_constant(self, name):
+        """value of a constant imported with `from watchdog.x import NAME` (followed through the package only)"""
+        for n in ast.walk(self.tree):
+            if isinstance(n, ast.ImportFrom) and n.module and n.module.startswith("watchdog") and n.level == 0:
+                for a in n.names:
+                    if (a.asname or a.name) == name:
+                        rel = n.module.replace(".", "/")
+                        for cand in (rel + ".py", rel + "/__init__.py"):
+                            if os.path.exists(os.path.join(SRC, cand)):
+                                c = module(cand).constants()
+                                if a.name in c:
+                                    return True, c[a.name]
+        return False, None
+
     # ---- module/class level constants, evaluated from the real source text
     def constants(self) -> dict:
         if self._consts is not None:
